@@ -820,15 +820,55 @@ func c07EOFUnwrapped(c *Ctx) {
 					}
 				}
 				for _, e := range ins {
-					// a value that is directly the error of a non-stream call (strconv, base64, ...) is never io.EOF's carrier
-					if _, isLd := isLoad(e); !isLd {
-						if !flowsFrom(e, isStreamRead) {
-							continue
+					// the error of a non-stream call (strconv, base64, ...) is never io.EOF's carrier: follow the
+					// error value itself (φ, local cells, interface conversions), not the data it was computed from
+					mayEOF := false
+					seenV := map[ssa.Value]bool{}
+					var origin func(v ssa.Value)
+					origin = func(v ssa.Value) {
+						if v == nil || seenV[v] || mayEOF {
+							return
 						}
-					} else if ld, _ := isLoad(e); ld != nil {
-						if _, isAl := ld.X.(*ssa.Alloc); isAl && !flowsFrom(e, isStreamRead) {
-							continue
+						seenV[v] = true
+						switch x := v.(type) {
+						case *ssa.Phi:
+							for _, ed := range x.Edges {
+								origin(ed)
+							}
+						case *ssa.ChangeInterface:
+							origin(x.X)
+						case *ssa.Extract:
+							if isStreamRead(x) {
+								mayEOF = true
+							}
+						case *ssa.Call:
+							if isStreamRead(x) {
+								mayEOF = true
+							}
+						case *ssa.Const, *ssa.MakeInterface:
+							// nil or a freshly built error
+						case *ssa.UnOp:
+							al, isAl := x.X.(*ssa.Alloc)
+							if x.Op != token.MUL || !isAl {
+								mayEOF = true // captured variable, field, global: not tracked
+								return
+							}
+							for _, r := range refs(al) {
+								if st, isSt := r.(*ssa.Store); isSt && st.Addr == ssa.Value(al) {
+									origin(st.Val)
+								} else if _, isLd := r.(*ssa.UnOp); !isLd {
+									if _, isDbg := r.(*ssa.DebugRef); !isDbg {
+										mayEOF = true // the cell escapes (closure, address taken)
+									}
+								}
+							}
+						default:
+							mayEOF = true
 						}
+					}
+					origin(e)
+					if !mayEOF {
+						continue
 					}
 					guarded := false
 					for _, f := range factsAt(call.Block()) {
